@@ -83,6 +83,9 @@ def op? : Sexp → Option Op
   | .list [.atom "cut", n, acc] => do let n ← n.toNat?; let acc ← acc.toBool?; pure (.cut n acc)
   | .list [.atom "map", all] => do let all ← all.toBool?; pure (.mapBang all)
   | .list [.atom "SUBST", .str p, .str r, n] => do let n ← n.toNat?; pure (.subst p r n)
+  | .atom "trace" => some .trace
+  | .list [.atom "maptext", .atom "rev"] => some (.mapText fun t _ => (t.reverse, false))
+  | .list [.atom "maptext", .atom "dup"] => some (.mapText fun t sf => (t ++ t, sf))
   | .list [.atom "filter", d] => do
       let d ← d.toBool?; pure (.filter (if d then dropComments else id))
   | _ => none
